@@ -603,11 +603,70 @@ Theorem useafter_checked : forall T S wv, discipline_ok S T wv = true ->
 Proof.
   intros T S wv Hok m g f Hm Hc Hg Hf.
   assert (Hv : In (mkViol (m_class m) (m_name m) f "useafter") (violations_raw T S)).
-  { unfold violations_raw. do 4 (apply in_or_app; right). apply in_or_app; left.
+  { unfold violations_raw. do 5 (apply in_or_app; right). apply in_or_app; left.
     unfold useafter_violations. apply in_flat_map. exists (m, CAny); split.
     - unfold roots. apply in_flat_map. exists m; split; [exact Hm|]. rewrite Hc. left; reflexivity.
     - apply in_flat_map. exists (m_class m, g); split; [exact Hg|].
       cbn [fst snd]. unfold seqb. rewrite String.eqb_refl. apply in_map_iff. exists f; split; [reflexivity|exact Hf]. }
+  destruct (discipline_ok_spec _ _ _ Hok _ Hv) as [w [Hw Heq]].
+  apply viol_eqb_eq in Heq. cbn in Heq. destruct Heq as [E1 [E2 [E3 E4]]].
+  exists w; repeat split; auto.
+Qed.
+
+(* ------------------------------------------------------------------ borrowed captures *)
+(* The enqueue of a functor orders what the poster did BEFORE it ahead of the functor's run (publish_by_enqueue) - an
+   owned copy made before the post is safe.  What the poster does AFTER the post is not ordered: thread 1 posts functor 7
+   that reads location 5 (memory it only borrowed: a StringPiece's bytes, a raw pointer, the raw this), returns and
+   rewrites / frees that memory; the loop thread runs the functor. *)
+Definition borrowed_trace : trace := [EEnq 1 7; EAcc 1 5 W; ERun 2 7; EAcc 2 5 R].
+
+Lemma hb_borrowed_from1 : forall i j, hb borrowed_trace i j -> i <> 1.
+Proof.
+  intros i j H. induction H; try assumption; intros ->.
+  - destruct j as [|[|[|[|j]]]]; try lia; cbn in *; try (rewrite nth_error_nil_none in *; discriminate);
+      injection H0 as <-; injection H1 as <-; cbn in H2; discriminate.
+  - destruct j as [|[|[|[|j]]]]; try lia; cbn in *; try (rewrite nth_error_nil_none in *; discriminate);
+      injection H0 as <-; injection H1 as <-; cbn in H2; discriminate.
+Qed.
+
+Lemma borrowed_wf : wf_trace borrowed_trace.
+Proof.
+  split.
+  - intros n e H. destruct n as [|[|[|[|n]]]]; cbn in H; try (injection H as <-; cbn; exact I).
+    rewrite nth_error_nil_none in H; discriminate.
+  - intros i j a b Ha Hb.
+    destruct i as [|[|[|[|i]]]]; cbn in Ha; try (rewrite nth_error_nil_none in Ha; discriminate);
+      injection Ha as <-; repeat split; exact I.
+Qed.
+
+Lemma borrowed_after_post_races :
+  exists tr i j, wf_trace tr /\ conflicting tr i j /\ ~ hb tr i j /\ ~ hb tr j i /\ hb tr 0 3.
+Proof.
+  exists borrowed_trace, 1, 3. split; [exact borrowed_wf|]. split.
+  - exists 1, 2, 5, W, R. repeat split; try reflexivity; [discriminate|now left].
+  - split; [|split].
+    + intros H. exact (hb_borrowed_from1 _ _ H eq_refl).
+    + intros H. apply hb_lt in H. lia.
+    + apply hb_trans with 2.
+      * eapply hb_sw with (a := EEnq 1 7) (b := ERun 2 7); [lia|reflexivity|reflexivity|reflexivity].
+      * eapply hb_po with (a := ERun 2 7) (b := EAcc 2 5 R); [lia|reflexivity|reflexivity|reflexivity].
+Qed.
+
+(* the static rule: a borrowed capture (or an unjustified raw this of a shared class) posted by a root method itself on
+   its cross-thread branch is a recorded finding *)
+Theorem borrow_checked : forall T S wv, discipline_ok S T wv = true ->
+  forall m k pa kind, In m S -> contract_of T (m_class m) (m_name m) = Some k ->
+    In pa (m_postargs m) -> borrow_kind T (m_class m) (m_name m) pa (ctx_of_contract k) = Some kind ->
+    exists w, In w wv /\ v_class w = m_class m /\ v_site w = m_name m /\ v_what w = pa_callee pa /\ v_kind w = kind.
+Proof.
+  intros T S wv Hok m k pa kind Hm Hc Hpa Hk.
+  assert (Hv : In (mkViol (m_class m) (m_name m) (pa_callee pa) kind) (violations_raw T S)).
+  { unfold violations_raw. do 4 (apply in_or_app; right). apply in_or_app; left.
+    unfold borrow_violations. apply in_flat_map. exists (m, k); split.
+    - unfold roots. apply in_flat_map. exists m; split; [exact Hm|]. rewrite Hc. left; reflexivity.
+    - unfold FUEL. cbn [collect_posts]. apply in_or_app; left.
+      apply in_flat_map. exists pa; split; [exact Hpa|]. rewrite Hk.
+      unfold site_name, seqb. rewrite String.eqb_refl. left; reflexivity. }
   destruct (discipline_ok_spec _ _ _ Hok _ Hv) as [w [Hw Heq]].
   apply viol_eqb_eq in Heq. cbn in Heq. destruct Heq as [E1 [E2 [E3 E4]]].
   exists w; repeat split; auto.
